@@ -5,6 +5,9 @@ pub mod c06;
 pub mod c07;
 pub mod c08;
 pub mod c10;
+pub mod c12;
+pub mod c15;
+pub mod c16;
 
 use crate::runner::{CheckMeta, ShardFn};
 
@@ -15,7 +18,7 @@ pub struct CheckDef {
 }
 
 pub fn all() -> Vec<CheckDef> {
-    vec![c01::def(), c03::def(), c05::def(), c06::def(), c07::def(), c08::def(), c10::def()]
+    vec![c01::def(), c03::def(), c05::def(), c06::def(), c07::def(), c08::def(), c10::def(), c12::def(), c15::def(), c16::def()]
 }
 
 pub fn find(id: &str) -> Option<CheckDef> {
@@ -28,6 +31,9 @@ pub fn replay_other(kind: &str, fr: &crate::runner::FailRec, dir: &std::path::Pa
         "c08" => c08::replay(fr, dir),
         "c03" => c03::replay(fr, dir),
         "c10" => c10::replay(fr, dir),
+        "c12" => c12::replay(fr, dir),
+        "c15" => c15::replay(fr, dir),
+        "c16" => c16::replay(fr, dir),
         _ => Some(crate::interp::Failure::new("harness_panic", format!("unknown case kind {}", kind))),
     }
 }
